@@ -145,7 +145,12 @@ func baseNextToken(l *Lexer) token.Token {
 		startLine, startColumn := l.Line, l.Column
 		tok = l.NewTokenAt(token.RAW_STRING, l.readRawString(), startLine, startColumn)
 	case 0:
-		tok = l.NewToken(token.EOF, "")
+		if l.atEOF() {
+			tok = l.NewToken(token.EOF, "")
+		} else {
+			// a NUL byte inside the input is not the end of it
+			tok = l.NewToken(token.ILLEGAL, string(l.CurrentChar))
+		}
 	default:
 		if isLetter(l.CurrentChar) {
 			// Capture position BEFORE reading the identifier
